@@ -10,7 +10,7 @@
     and the value they denote; [in_scope] (Ber/BerScope.v) and [compiles]
     (Ber/BerAcceptBase.v) are decidable scope predicates. *)
 From Asn1V Require Import Base.Prelude Syntax.Asn1 Ber.X690 Ber.BerScope Ber.BerImpl
-     Ber.BerAcceptBase Ber.BerAccept Ber.BerTrunc.
+     Ber.BerAcceptBase Ber.BerAccept Ber.BerAcceptD Ber.BerTrunc.
 
 (** For EVERY BER tree [x] — each constructed encoding independently definite
     or indefinite, every definite length in short, long or zero-padded long
@@ -27,6 +27,18 @@ Theorem C04_ber_accepts :
 Proof. exact ber_accepts_tree. Qed.
 Print Assumptions C04_ber_accepts.
 
+(** The same for recursive types: [compiles] follows a type to the bottom of
+    the fuel and is never true for a recursive type; [compilesD d] inspects the
+    tag tables only [d] constructed levels deep, which is all the decoder needs
+    for an encoding of depth at most [S d]. *)
+Theorem C04_ber_accepts_depth :
+  forall numeric e d fuel t x v tail,
+    in_scope numeric e fuel t = true -> compilesD e d fuel t = true -> (bdepth x <= S d)%nat ->
+    bwf x = true -> bread numeric e fuel t x = Some v ->
+    BerImpl.ber_decode numeric fuel e t (bser x ++ tail) = Ok (v, length (bser x)).
+Proof. exact ber_accepts_tree_D. Qed.
+Print Assumptions C04_ber_accepts_depth.
+
 (** the same on octet strings: [ber_sem_at] = "bs is a valid BER encoding denoting v" *)
 Theorem C04_ber_accepts_sem :
   forall numeric e fuel t bs v,
@@ -39,7 +51,7 @@ Print Assumptions C04_ber_accepts_sem.
 (** every strict prefix of a BER encoder output is rejected with a decode error *)
 Theorem C04_ber_truncation :
   forall numeric e fuel t v bs k,
-    scope_enc numeric e fuel t = true -> scope_dec e fuel t = true -> compiles e fuel t = true ->
+    scope_enc numeric e fuel t = true -> scope_dec e fuel t = true -> compiles_g false e fuel t = true ->
     BerImpl.ber_encode numeric fuel e t v = Ok bs -> BerTrunc.small bs -> (k < length bs)%nat ->
     exists err, BerImpl.ber_decode numeric fuel e t (firstn k bs) = Err err /\ is_decode_error err = true.
 Proof. exact ber_truncation. Qed.
@@ -72,3 +84,20 @@ Example C04_hypotheses_inhabited :
   BerImpl.ber_decode false 12 C04_env C04_ty (bser C04_tree ++ [1; 2; 3]) = Ok (C04_val, length (bser C04_tree)).
 Proof. repeat split; vm_compute; reflexivity. Qed.
 Print Assumptions C04_hypotheses_inhabited.
+
+(** Non-vacuity of the depth-bounded form on a recursive type:
+    T0 ::= SEQUENCE { v1 INTEGER, next2 T0 OPTIONAL }, value { v1 5, next2 { v1 7 } },
+    outer encoding indefinite, inner length padded. *)
+Definition C04_rec_env : env :=
+  [("T0"%string, TSeq false [("v1"%string, TInt IcNone, Mandatory); ("next2"%string, TRef "T0"%string, Optional)] None)].
+Definition C04_rec_tree : btlv :=
+  BCons Univ 16 LIndef [BPrim Univ 2 [1] [5]; BCons Univ 16 (LDef [129; 3]) [BPrim Univ 2 [1] [7]]].
+Example C04_depth_hypotheses_inhabited :
+  in_scope false C04_rec_env 30 (TRef "T0"%string) = true /\
+  compiles C04_rec_env 30 (TRef "T0"%string) = false /\
+  compilesD C04_rec_env 3 30 (TRef "T0"%string) = true /\
+  (bdepth C04_rec_tree <= 4)%nat /\ bwf C04_rec_tree = true /\
+  bread false C04_rec_env 30 (TRef "T0"%string) C04_rec_tree =
+    Some (VSeq [("v1"%string, VInt 5); ("next2"%string, VSeq [("v1"%string, VInt 7)])]).
+Proof. repeat split; vm_compute; try reflexivity. lia. Qed.
+Print Assumptions C04_depth_hypotheses_inhabited.
